@@ -230,9 +230,28 @@ pub fn simple_tokens(text: &str) -> Vec<String> {
     out
 }
 
+/// names whose documented (byte-wise) alphabetical order is the order of the ranks, written with characters of
+/// different classes: a digit, an upper-case letter, the underscore, lower-case letters (0 < E < _ < e < r < z),
+/// so that an ordering which ignores case or treats the underscore differently shows
+const NAME_DIGITS: [char; 6] = ['0', 'E', '_', 'e', 'r', 'z'];
 pub fn name_of_rank(rank: u64) -> String {
-    format!("n{rank:05}")
+    let mut r = rank;
+    let mut tail = Vec::new();
+    for _ in 0..7 {
+        tail.push(NAME_DIGITS[(r % 6) as usize]);
+        r /= 6;
+    }
+    tail.reverse();
+    format!("N{}", tail.into_iter().collect::<String>())
 }
 pub fn rank_of_name(name: &str) -> u64 {
-    name.trim_start_matches('n').parse().unwrap_or(99999)
+    let Some(t) = name.strip_prefix('N') else { return 99999 };
+    let mut r = 0u64;
+    for c in t.chars() {
+        match NAME_DIGITS.iter().position(|d| *d == c) {
+            Some(i) => r = r * 6 + i as u64,
+            None => return 99999,
+        }
+    }
+    r
 }
